@@ -13,6 +13,11 @@ def parseLims (j : Json) : Except String (List (Float × Float)) := do
     if pair.size != 2 then throw "bad limit pair"
     pure ((← floatOfJson pair[0]!), (← floatOfJson pair[1]!))
 
+partial def parseATree (j : Json) : Except String (ATree Float) := do
+  let a ← (← getArr j "a").toList.mapM parseAsrt
+  let c ← (← getArr j "c").toList.mapM parseATree
+  pure (.node a c)
+
 def handleC03 (j : Json) : Except String Json := do
   let parsed ← parseNode (← j.getObjVal? "comp")
   let t := parsed.node
@@ -20,7 +25,8 @@ def handleC03 (j : Json) : Except String Json := do
   let asserts ← (← getArr j "asserts").toList.mapM parseAsrt
   let v ← vecOfJson (← j.getObjVal? "v")
   let ignore ← getBool j "ignore"
-  match gate floatOps t lims asserts v ignore with
+  let tr ← parseATree (← j.getObjVal? "atree")
+  match gateTree floatOps t lims tr v ignore with
   | .ok i => pure (Json.mkObj [("ok", jsonOfInst i),
       ("verdicts", Json.arr (asserts.map (fun a => Json.bool (evalA floatOps (valOf (argsOfVector t v)) a))).toArray)])
   | .error .length => pure (Json.mkObj [("err", "length")])
